@@ -104,6 +104,8 @@ finding("C03-err-trap-inside-negated-compound", "C03", "`! while c; do ko; done`
         all=["other-divergence", "not"], observed_contains="ERR", why=PINNED + " (same mechanism as C03-err-trap-fires-twice: where Pipeline::execute reports a failure)")
 finding("C03-errexit-after-negated-compound", "C03", "a compound command (`case`, `for`, …) whose status 1 comes from a `!`-negated pipeline inside it makes errexit fire when the compound ends; bash goes on (here: falls through `;&` to the next arm and exits there)",
         all=["other-divergence", "not"], none=["opts:ERR", "opts:e+ERR", "opts:e+errtrace+ERR"], why="same defect as C03-errexit-negated-group, seen where bash also exits, only later")
+finding("C03-errexit-after-negated-compound-in-stage", "C03", "same defect inside the first stage of a pipeline while the parent has an ERR trap (not inherited by the stage, so nothing is printed by it): `set -e; trap … ERR; { for …; do for …; do ! { ! ko; }; done; done; } | cat` — brush's stage exits when the inner loop ends with the exempt status 1, bash's goes on",
+        all=["other-divergence", "not", "wrap:pipe-first", "opts:e+ERR"], why="same defect as C03-errexit-negated-group (thorough tier only: needs 5 grammar nodes)")
 finding("C03-errexit-after-exempt-andor-in-loop", "C03", "a loop whose last body command is `ko && x` ends with status 1 from the exempt left operand; brush lets errexit fire when the (nested) loop ends, bash does not (the failure happened in an exempt position)",
         all=["other-divergence", "and"], why="same defect as C03-errexit-negated-group: the exemption is not carried out of the compound command with its status")
 finding("C03-errexit-after-exempt-andor-in-loop2", "C03", "same with `||` chains", all=["other-divergence", "or"], why="same")
@@ -212,6 +214,8 @@ finding("C09-local-inherits-temp-assignment", "C09", "`f() { local x; echo ${x-U
         all=["act:tmp-function-local"], why="bash-specific inheritance rule of `local`; needs the command scope to be consulted when a local is created")
 finding("C09-export-of-temp-assignment-persists", "C09", "`f() { export x; }; x=tmp f`: bash keeps `x=tmp` exported in the caller after the call (exporting a temporary binding promotes it); brush restores the previous binding",
         all=["act:tmp-function-export"], why="bash-specific promotion rule; the temporary binding would have to be merged into the enclosing scope when its attributes change")
+finding("C09-readonly-local-writers", "C09", "same as the readonly-writer findings with a readonly LOCAL: after `local -r x=v` a later `x=…`, `x+=…`, `(( x = … ))`, `for x in …` in the function or a callee does not unwind / fail the way bash's does",
+        all=["act:local-r-x"], why="same mechanism as C09-readonly-assign-in-function / C09-readonly-arith-aborts")
 finding("C09-unset-exported-a", "C09", "same for arrays", all=["act:unset-a"])
 
 # ---------------------------------------------------------------------------------------------- C10
@@ -219,8 +223,10 @@ finding("C10-heredoc-continuation-before-delimiter", "C10", "in an unquoted here
         all=["heredoc", "line:trailing-backslash"], why="the tokenizer's delimiter search would have to process continuations; the common case (continuation between ordinary body lines) was repaired")
 
 fixed("C10", "word of a here-string is not brace-expanded", "`cat <<<{1,2}` printed `1 2`")
+fixed("C10", "a failed redirection on a compound command fails that command only", "`( { echo a; } <&3; echo after )`, `f() { { :; } >existing-under-noclobber; echo after; }`: the failed redirection of a compound command ended the enclosing subshell / function / brace group / command substitution instead of giving that command status 1")
 fixed("C10", "a here-document larger than the largest pipe is fed from a thread", "a here-document or here-string body larger than /proc/sys/fs/pipe-max-size (1 MiB) failed the command with `platform error: EPERM` (F_SETPIPE_SZ refused) instead of delivering the body")
 # ---------------------------------------------------------------------------------------------- C11
+fixed("C11", "read a command substitution's output on a blocking thread", "`x=$(echo \"$(vprod 1048576)\")` (nested command substitution whose outer writer is a builtin, output larger than a pipe buffer) hung in 30 of 40 runs of the real binary; `x=$(printf %s \"$(printf %s \"$P\")\")` with 1 MiB in 5 of 40")
 finding("C11-nonfinal-compound-stage-inline", "C11", "a function, brace group, subshell or loop in a non-final pipeline position is executed inline while the pipeline is still being set up: with more data than the pipe holds (or an early-exit reader) the pipeline hangs",
         all=["nonfinal-compound-stage", "hang"], why="pipeline set-up design: compound stages must become concurrent tasks")
 
